@@ -113,6 +113,8 @@ Write ==
           \cup Flag(e.res = "Ok" => (e.n = Min(e.len, budget) /\ e.n <= e.len), "WriteAcceptedMoreOrLessThanCredit")
           \cup Flag((e.res = "Ok" /\ e.len > 0) => budget > 0, "WriteAcceptedWithoutCredit")
           \cup Flag((e.res = "Blocked" /\ ~e.closed) => budget = 0, "BlockedAlthoughCreditAvailable")
+          \* the connection's count of unacknowledged bytes equals what its send buffers hold
+          \cup Flag(e.closed \/ e.ua = e.uasum, "SendWindowAccountingDrift")
   /\ l' = l + 1 /\ UNCHANGED <<tp, limC, limS, limN, hi, cur>>
 
 Open ==
